@@ -151,11 +151,18 @@ class _SolveIVP(torch.autograd.Function):
 
         def pfunc2(t, y, tensor_params):
             if not grad_enabled:
-                # if graph is not constructed, then use the default tensor_params
+                # if graph is not constructed, then use detached copies of the
+                # tensor_params, so that a parameter that is a function of
+                # another one is not differentiated through (autograd does that)
+                tensor_params_copy = [p.detach().requires_grad_() for p in tensor_params]
                 ycopy = y.detach().requires_grad_()  # [yi.detach().requires_grad_() for yi in y]
                 tcopy = t.detach().requires_grad_()
-                f = pfcn(tcopy, ycopy, *params)
-                return f, tcopy, ycopy, tensor_params
+                allparams_copy = param_sep.reconstruct_params(tensor_params_copy)
+                params_copy = allparams_copy[:nparams]
+                objparams_copy = allparams_copy[nparams:]
+                with pfcn.useobjparams(objparams_copy):
+                    f = pfcn(tcopy, ycopy, *params_copy)
+                return f, tcopy, ycopy, tensor_params_copy
             else:
                 # if graph is constructed, then use the clone of the tensor params
                 # so that infinite loop of backward can be avoided
